@@ -194,6 +194,12 @@ impl VarFile {
                     self.write_free_piece_offset_on_header(new_piece_size, free_next)?;
                 }
                 //
+                #[cfg(feature = "verif_hooks")]
+                crate::verif_hooks::note(if new_piece_size < piece_size {
+                    "large_reuse_bigger"
+                } else {
+                    "large_reuse_exact"
+                });
                 self.write_piece_clear(free_curr, piece_size)?;
                 return Ok(free_curr);
             }
